@@ -14,19 +14,39 @@ ENC = ['tskit.combinatorics.RankTree.unrank', 'RankTree.shape_unrank', 'RankTree
 
 def conds(tier):
     q = [
-        dict(module=M, function='unrank_rank', timeout=150, encodes=ENC,
-             what='unrank(n,(s,l)).rank()==(s,l) in range, ValueError outside; n<=5, s<=14, l<=130 symbolic'),
+        dict(module=M, function='unrank_rank', timeout=170, encodes=ENC,
+             what='unrank(n,(s,l)).rank()==(s,l) in range, ValueError outside; n<=4, s<=6, l<=16 symbolic'),
+        dict(module=M, function='unrank_rank_n5a', timeout=170, what='the same for n=5, s<=5, l<=62'),
+        dict(module=M, function='unrank_rank_n5b', timeout=170, what='the same for n=5, 6<=s<=8, l<=62'),
+        dict(module=M, function='unrank_rank_n5c', timeout=170, what='the same for n=5, 9<=s<=13 (12, 13 out of range), l<=62'),
         dict(module=M, function='negative_ranks_rejected', timeout=60, what='negative shape/label ranks raise'),
         dict(module=M, function='comb_roundtrip', timeout=90, what='Combination.unrank/rank inverse, n<=6'),
         dict(module=M, function='wr_roundtrip', timeout=90, what='with_replacement_unrank/rank inverse, n<=5,k<=4'),
         dict(module=M, function='comb_counts', timeout=90, what='comb/comb_with_replacement equal itertools counts'),
-        dict(module=M, function='rank_invariant', timeout=150,
-             what='rank invariant under child order and node renumbering (fake tree, symbolic scramble seed), n<=4'),
+        dict(module=M, function='rank_invariant_n3', timeout=150,
+             what='rank invariant under child rotation/reversal and pre/post-order node numbering (fake tree), n=3'),
+        dict(module=M, function='rank_invariant_n4', timeout=170,
+             what='rank invariant under child rotation and pre/post-order node numbering (fake tree), n=4'),
+        dict(module=M, function='rank_invariant_n4_reversed', timeout=170,
+             what='rank invariant under child rotation+reversal and pre/post-order node numbering (fake tree), n=4'),
         dict(module=M, function='all_trees_in_rank_order', timeout=120, what='all_labelled_trees(n) in rank order, n<=4'),
         dict(module=M, function='all_shapes_in_rank_order', timeout=120, what='all_unlabelled_trees(n) in rank order, n<=6'),
-        dict(module=M, function='count_topologies_bruteforce', timeout=170,
-             what='tree_count_topologies == brute force over one-sample-per-set choices; 5 tree shapes x symbolic '
-                  'assignment of <=5 samples to <=3 sets'),
+        dict(module=M, function='count_topologies_shape0', timeout=170,
+             what='tree_count_topologies == brute force over one-sample-per-set choices; tree shape 0 of 5 x symbolic '
+                  'assignment of the samples to <=3 sets'),
+        dict(module=M, function='count_topologies_shape1', timeout=170,
+             what='tree_count_topologies == brute force over one-sample-per-set choices; tree shape 1 of 5 x symbolic '
+                  'assignment of the samples to <=3 sets'),
+        dict(module=M, function='count_topologies_shape2b', timeout=170, what='shape 2 (5-leaf caterpillar), a0 in {2, none}'),
+        dict(module=M, function='count_topologies_shape2', timeout=170,
+             what='tree_count_topologies == brute force over one-sample-per-set choices; tree shape 2 of 5 x symbolic '
+                  'assignment of the samples to <=3 sets'),
+        dict(module=M, function='count_topologies_shape3', timeout=170,
+             what='tree_count_topologies == brute force over one-sample-per-set choices; tree shape 3 of 5 x symbolic '
+                  'assignment of the samples to <=3 sets'),
+        dict(module=M, function='count_topologies_shape4', timeout=170,
+             what='tree_count_topologies == brute force over one-sample-per-set choices; tree shape 4 of 5 x symbolic '
+                  'assignment of the samples to <=3 sets'),
     ]
     if tier == 'thorough':
         for c in q:
